@@ -270,67 +270,72 @@ func c08Exec(c c08Case) (keys []string, detail, class string) {
 	if len(info.Assertions) != len(want.Assertions) {
 		keys = append(keys, "C08/summary/assertion-list-differs")
 	}
-	// the summary map is keyed by Name: for a name the IdP used on several Attribute elements it
-	// holds one of them (whole), never a blend and never something unsigned
-	byName := map[string][]int{}
-	for i, at := range first.Attrs {
-		byName[at.Name] = append(byName[at.Name], i)
-	}
-	if len(info.Values) != len(byName) {
-		keys = append(keys, "C08/summary/attribute-count-differs")
-	}
-	for name, idxs := range byName {
-		v, ok := info.Values[name]
-		if !ok {
-			keys = append(keys, "C08/summary/attribute-missing")
-			continue
+	if p := guard(func() {
+		// the summary map is keyed by Name: for a name the IdP used on several Attribute elements it
+		// holds one of them (whole), never a blend and never something unsigned
+		byName := map[string][]int{}
+		for i, at := range first.Attrs {
+			byName[at.Name] = append(byName[at.Name], i)
 		}
-		got := make([]string, 0, len(v.Values))
-		for _, x := range v.Values {
-			got = append(got, x.Value)
+		if len(info.Values) != len(byName) {
+			keys = append(keys, "C08/summary/attribute-count-differs")
 		}
-		match := -1
-		for _, i := range idxs {
-			at := first.Attrs[i]
-			if v.FriendlyName == at.Friendly && v.NameFormat == at.Format && sameList(got, at.Values) {
-				match = i
+		for name, idxs := range byName {
+			v, ok := info.Values[name]
+			if !ok {
+				keys = append(keys, "C08/summary/attribute-missing")
+				continue
+			}
+			got := make([]string, 0, len(v.Values))
+			for _, x := range v.Values {
+				got = append(got, x.Value)
+			}
+			match := -1
+			for _, i := range idxs {
+				at := first.Attrs[i]
+				if v.FriendlyName == at.Friendly && v.NameFormat == at.Format && sameList(got, at.Values) {
+					match = i
+				}
+			}
+			if match < 0 {
+				at := first.Attrs[idxs[0]]
+				if v.FriendlyName != at.Friendly || v.NameFormat != at.Format {
+					keys = append(keys, "C08/summary/attribute-metadata-differs")
+				}
+				if !sameList(got, at.Values) {
+					keys = append(keys, "C08/summary/attribute-values-differ")
+					detail += fmt.Sprintf(" | Values[%q]=%q want %q", name, got, at.Values)
+				}
+				match = idxs[0]
+			}
+			at := first.Attrs[match]
+			// accessors
+			all := info.Values.GetAll(at.Name)
+			if !sameList(all, at.Values) {
+				keys = append(keys, "C08/accessor/GetAll-differs")
+				detail += fmt.Sprintf(" | GetAll(%q)=%q want %q", at.Name, all, at.Values)
+			}
+			if info.Values.GetSize(at.Name) != len(at.Values) {
+				keys = append(keys, "C08/accessor/GetSize-differs")
+			}
+			wantFirst := ""
+			if len(at.Values) > 0 {
+				wantFirst = at.Values[0]
+			}
+			if info.Values.Get(at.Name) != wantFirst {
+				keys = append(keys, "C08/accessor/Get-differs")
 			}
 		}
-		if match < 0 {
-			at := first.Attrs[idxs[0]]
-			if v.FriendlyName != at.Friendly || v.NameFormat != at.Format {
-				keys = append(keys, "C08/summary/attribute-metadata-differs")
-			}
-			if !sameList(got, at.Values) {
-				keys = append(keys, "C08/summary/attribute-values-differ")
-				detail += fmt.Sprintf(" | Values[%q]=%q want %q", name, got, at.Values)
-			}
-			match = idxs[0]
+		if info.Values.Get("no-such-attribute") != "" || info.Values.GetSize("no-such-attribute") != 0 || len(info.Values.GetAll("no-such-attribute")) != 0 {
+			keys = append(keys, "C08/accessor/absent-name-not-empty")
 		}
-		at := first.Attrs[match]
-		// accessors
-		all := info.Values.GetAll(at.Name)
-		if !sameList(all, at.Values) {
-			keys = append(keys, "C08/accessor/GetAll-differs")
-			detail += fmt.Sprintf(" | GetAll(%q)=%q want %q", at.Name, all, at.Values)
+		var nilVals saml2.Values
+		if nilVals.Get("x") != "" || nilVals.GetSize("x") != 0 || len(nilVals.GetAll("x")) != 0 {
+			keys = append(keys, "C08/accessor/nil-map-not-empty")
 		}
-		if info.Values.GetSize(at.Name) != len(at.Values) {
-			keys = append(keys, "C08/accessor/GetSize-differs")
-		}
-		wantFirst := ""
-		if len(at.Values) > 0 {
-			wantFirst = at.Values[0]
-		}
-		if info.Values.Get(at.Name) != wantFirst {
-			keys = append(keys, "C08/accessor/Get-differs")
-		}
-	}
-	if info.Values.Get("no-such-attribute") != "" || info.Values.GetSize("no-such-attribute") != 0 || len(info.Values.GetAll("no-such-attribute")) != 0 {
-		keys = append(keys, "C08/accessor/absent-name-not-empty")
-	}
-	var nilVals saml2.Values
-	if nilVals.Get("x") != "" || nilVals.GetSize("x") != 0 || len(nilVals.GetAll("x")) != 0 {
-		keys = append(keys, "C08/accessor/nil-map-not-empty")
+	}); p != "" {
+		keys = append(keys, "C08/accessor/panic")
+		detail += " | accessor panicked: " + p
 	}
 	class = fmt.Sprintf("accepted/faithful/placement=%d/lex=%v", c.Placement, len(c.Lex) > 0)
 	if len(keys) > 0 {
